@@ -296,7 +296,7 @@ func safely(f func() error) (err error, panicked string) {
 
 func cacheCrashMain(args []string) {
 	o := hx.ParseOpts(args)
-	rep := hx.NewReport("both cache kinds x MemMapFs / OsFs: (1) Store(v1) then a Store(v2) whose backend stops from operation k on (write at the crash point cut short) or fails at operation k only, for every k (thorough) / 12 sampled k (quick), " +
+	rep := hx.NewReport("both cache kinds x MemMapFs / OsFs: (1) Store(v1) then a Store(v2) whose backend stops from operation k on (write at the crash point cut short) or fails at operation k only, for every k (in memory, and on the OS backend in the thorough tier) / 12 sampled k (OS backend, quick), " +
 		"followed by CleanEntry (after the lock went stale) and Fetch by a fresh client; (2) the same without a previous version; (3) 2..4 clients storing v1..v3, fetching and cleaning concurrently; (4) remote paths containing \".part\". " +
 		"non-trivial = the fault hits the Store (k ≤ number of operations of the un-faulted Store); distinct = (kind, backend, scenario, fault mode, k).")
 	ctx := context.Background()
@@ -322,7 +322,8 @@ func cacheCrashMain(args []string) {
 				total := atomic.LoadInt64(&ff0.n)
 				base.cleanup()
 				var ks []int64
-				if o.Thorough() {
+				if o.Thorough() || backend == "mem" {
+					// every operation of the Store (the in-memory backend is fast enough for the quick tier too)
 					for k := int64(1); k <= total+1; k++ {
 						ks = append(ks, k)
 					}
@@ -412,14 +413,18 @@ func cacheCrashMain(args []string) {
 						}
 						w.cleanup()
 						}()
+						patience := 25 * time.Second
+						if backend == "mem" {
+							patience = 8 * time.Second // nothing sleeps in memory: a case takes milliseconds
+						}
 						select {
 						case <-finished:
-						case <-time.After(25 * time.Second):
+						case <-time.After(patience):
 							hk := "cache-call-does-not-return"
 							if backend == "mem" {
 								hk += ":after-a-panic-inside-the-in-memory-backend"
 							}
-							rep.Fail(hx.Failure{Kind: "impl-violates-property", Key: hk, Case: fmt.Sprintf("cachecase %v %s prev=%v mode=%s k=%d/%d", kind, backend, withPrev, mode, k, total), Expected: "every call returns", Observed: "no answer within 25 s"})
+							rep.Fail(hx.Failure{Kind: "impl-violates-property", Key: hk, Case: fmt.Sprintf("cachecase %v %s prev=%v mode=%s k=%d/%d", kind, backend, withPrev, mode, k, total), Expected: "every call returns", Observed: fmt.Sprintf("no answer within %v", patience)})
 						}
 						}(mode, k)
 					}
